@@ -1,0 +1,37 @@
+// Copyright 2020-2025 Buf Technologies, Inc.
+//
+// Licensed under the Apache License, Version 2.0 (the "License");
+// you may not use this file except in compliance with the License.
+// You may obtain a copy of the License at
+//
+//      http://www.apache.org/licenses/LICENSE-2.0
+//
+// Unless required by applicable law or agreed to in writing, software
+// distributed under the License is distributed on an "AS IS" BASIS,
+// WITHOUT WARRANTIES OR CONDITIONS OF ANY KIND, either express or implied.
+// See the License for the specific language governing permissions and
+// limitations under the License.
+
+//go:build verif
+
+package bufmodule
+
+// Contracts for the gocv verifier (see /verif/DESIGN.md). Comment-only.
+// Spec functions i_*: /verif/specs/C11.spec.
+//
+//@ trusted pure func (Module) IsTarget() (r)
+//
+// C11: the module-level targeting decision (what `buf build --path/--exclude-path` applies to the sources): without a
+// single-file target, a file of a target module is a target iff it equals or lies under some --path (when any --path
+// is given) and does not equal or lie under any --exclude-path. Files of non-target modules are never targets.
+//@ func (b *moduleReadBucket) getIsTargetFileForPathUncached(ctx, path) (r, err)
+//@   property C11
+//@   modifies heap, ghost.fail, ghost.wfail, ghost.sinkPaths, ghost.sinkBuckets
+//@   reveal i_underSome, i_moduleDecision
+//@   requires validRel(path)
+//@   requires (forall k string :: k in b.targetPathMap ==> validRel(k)) && (forall k string :: k in b.targetExcludePathMap ==> validRel(k))
+//@   ensures no-error: old(b.protoFileTargetPath) == "" ==> err == nil
+//@   ensures decision: old(b.protoFileTargetPath) == "" ==> (r <==> (old(b.module).IsTarget() && i_moduleDecision(dom(old(b.targetPathMap)), len(old(b.targetPathMap)), dom(old(b.targetExcludePathMap)), path)))
+//@   ensures non-target-module: !old(b.module).IsTarget() ==> !r && err == nil
+//@   canary ensures r
+//@   canary ensures !r
